@@ -494,6 +494,9 @@ def run(ctx):
         r5c.check(v_[0], inst_, v_[1], v_[2], v_[3])
     for inst_, v_ in sorted(_lt.byte_rchr_sites(db, rep, prog).items()):
         r5c.check(v_[0], inst_, v_[1], v_[2], v_[3])
+    from rules import C10 as _c10
+    for inst_, v_ in sorted(_c10.constmap_hash_sites(db, rep, prog).items()):
+        r5c.check(v_[0], 'constmap:' + inst_, v_[1], v_[2], v_[3])
     for inst, v in sorted(C10.control_file_sites(db, rep, prog).items()):
         r5c.check(v[0], inst, v[1], v[2], v[3])
     r5c.expect_min(1)
